@@ -583,9 +583,10 @@ def run_windows(c, prefix, timeout_ms=None):
 
 
 def find_window_from_reset(c, goal, wdepth, depth, timeout_ms=None):
-    """bounded search from reset for a run whose last wdepth+1 frames violate a window goal"""
+    """bounded search from reset for a run whose last wdepth+1 frames violate a window goal (timeout_ms = total budget)"""
     u = Unroller(c, "reset")
     s = mk_solver(timeout_ms)
+    t_end = time.time() + (timeout_ms or TIMEOUT_MS) / 1000.0
     for a in c.all_assumes(u.views[-1]):
         s.add(a)
     for t in range(1, depth + 1):
@@ -596,6 +597,9 @@ def find_window_from_reset(c, goal, wdepth, depth, timeout_ms=None):
         for a in c.all_assumes(v):
             s.add(a)
         if t >= wdepth:
+            if time.time() > t_end:
+                break
+            s.set("timeout", max(1000, int((t_end - time.time()) * 1000)))
             r, _ = _check(s, z3.Not(_as_bool(goal(u.views[t - wdepth:t + 1]))))
             if r == z3.sat:
                 return u.model_trace(s.model()), t - wdepth
@@ -603,13 +607,17 @@ def find_window_from_reset(c, goal, wdepth, depth, timeout_ms=None):
 
 
 def find_trace_from_reset(c, bad_fn, depth, timeout_ms=None):
-    """bounded search for a trace from reset reaching bad_fn(view); returns trace dict or None"""
+    """bounded search for a trace from reset reaching bad_fn(view); returns trace dict or None (timeout_ms = total)"""
     u = Unroller(c, "reset")
     s = mk_solver(timeout_ms)
+    t_end = time.time() + (timeout_ms or TIMEOUT_MS) / 1000.0
     for t in range(depth + 1):
         v = u.views[-1]
         for a in c.all_assumes(v):
             s.add(a)
+        if time.time() > t_end:
+            break
+        s.set("timeout", max(1000, int((t_end - time.time()) * 1000)))
         r, _ = _check(s, _as_bool(bad_fn(v)))
         if r == z3.sat:
             return u.model_trace(s.model())
